@@ -328,7 +328,7 @@ CHECK = Check(
     P, 'exploration',
     rule=('Hypothesis-generated surrogates: 1-3 dimensions, asymmetric/negative bounds, 5-30 evidence points y = smooth(x) + noise from a data seed '
           'added in 1-3 update() chunks with hyper-parameter optimisation on every / the last / no update (max_opt_iters 10-50), threshold '
-          'None (optimised minimum) / a percentile of y / far below all evidence (deep tail) / exactly 0 (0.0 and the int 0), evidence optionally on a log scale, bounds dict in either key order, uniform or normal ModelPrior; query points '
+          'None (optimised minimum) / a percentile of y / far below all evidence (deep tail) / exactly 0 (0.0 and the int 0), evidence optionally on a log scale, bounds dict in either key order, optionally two copies of the surrogate updated separately, uniform or normal ModelPrior; query points '
           'inside, on and outside the bounds as scalars / 1-D / 2-D; both prediction phases; and a history of 1-5 phase switches, '
           'update(), update(optimize), optimize() and plain predict() calls before each sampling-phase comparison. Non-trivial = optimised '
           'hyper-parameters and an interior query with Phi-argument in (-6, 6).'),
